@@ -16,8 +16,9 @@ RULE = (
     "zero-length edges, large-offset banks at 123.456 / 1000.123 / 20000.7 / 5e5) x extra-column placements; path: every root-to-tip "
     "path and branch of every LT(n) through PathToTree / PathReverser. Oracle: reference tree built in pure Python (edge algebra, "
     "exact attributes, translated coordinates within the derived float32 bound) compared node by node via unique radius tags and, "
-    "independently, by attributed rooted-tree isomorphism. Non-trivial = the operation changes the parent table (new root != old "
-    "root, or a second tree is attached)."
+    "independently, by attributed rooted-tree isomorphism; every result is also tested for aliasing with its inputs, re-inspected "
+    "after the next cases (retained results), and in call-histories re-judged after later calls on other fresh inputs. "
+    "Non-trivial = the operation changes the parent table (new root != old root, or a second tree is attached)."
 )
 ASSUMPTIONS = [
     "nodes are identified by radius tags (A: 0.25+i/8, B: 5.25+j/8, exactly representable, untouched by both operations); "
@@ -139,6 +140,61 @@ def iso(ch_a, root_a, ch_b, root_b, compatible):
 # ------------------------------------------------------------------ redirect
 
 
+def judge_redirect(R, what, out, n, keys, tagged, base_p, base_cols, old_root, k, srt):
+    """out must be base (parent list base_p, columns base_cols) re-rooted at k."""
+    ctx = lambda: f"{what} p={base_p} new_root={k} sort={srt}: ids={out.id().tolist()} pids={out.pid().tolist()} types={out.type().tolist()}"  # noqa: E731
+    ids = [int(i) for i in out.id().tolist()]
+    pids = [int(i) for i in out.pid().tolist()]
+    if not R.check(len(ids) == n and ids == list(range(n)), "redirect:nodes", ctx, "redirect:node-count-or-ids"):
+        return None
+    if not R.check(set(out.keys()) == set(base_cols), "redirect:columns", ctx, "redirect:columns-lost"):
+        return None
+    want_p = ref.reroot(base_p, k)
+    exp = {c: list(base_cols[c]) for c in keys}
+    exp["type"][old_root], exp["type"][k] = exp["type"][k], exp["type"][old_root]
+    oc = cols_of(out)
+    roots = [i for i in range(n) if pids[i] == -1]
+    if not R.check(len(roots) == 1, "redirect:unique-root", ctx, "redirect:unique-root"):
+        return None
+    if not R.check(all(q == -1 or 0 <= q < n for q in pids) and not ref.has_cycle(pids), "redirect:malformed", ctx, "redirect:malformed"):
+        return None
+    if not srt:
+        # every node keeps its position
+        for c in keys:
+            if oc[c] != exp[c]:
+                R.fail("redirect:attributes", ctx() + f" column {c}: {oc[c]} != {exp[c]}",
+                       "redirect:type-exchange" if c == "type" else "redirect:attribute-changed")
+                return None
+        R.check(roots == [k], "redirect:requested-root", ctx, "redirect:requested-root")
+        R.check(pids == want_p, "redirect:edges", lambda: ctx() + f" want pids {want_p}", "redirect:edge-set")
+        return pids, oc
+    # sorted form
+    R.check(roots == [0] and all(pids[i] < i for i in range(1, n)), "redirect:not-sorted", ctx, "redirect:sort")
+    if tagged:
+        tag2orig = {base_cols["r"][i]: i for i in range(n)}
+        orig = [tag2orig.get(v) for v in oc["r"]]
+        if not R.check(None not in orig and sorted(orig) == list(range(n)), "redirect:node-multiset", ctx, "redirect:node-multiset"):
+            return None
+        for c in keys:
+            got = [oc[c][j] for j in range(n)]
+            want = [exp[c][orig[j]] for j in range(n)]
+            if got != want:
+                R.fail("redirect:attributes", ctx() + f" column {c}: {got} != {want}",
+                       "redirect:type-exchange" if c == "type" else "redirect:attribute-changed")
+                return None
+        R.check(orig[roots[0]] == k, "redirect:requested-root", ctx, "redirect:requested-root")
+        got_e = sorted(tuple(sorted((orig[i], orig[pids[i]]))) for i in range(n) if pids[i] != -1)
+        want_e = sorted(tuple(sorted(e)) for e in ref.edges(base_p))
+        R.check(got_e == want_e, "redirect:edges", lambda: ctx() + f" edges {got_e} != {want_e}", "redirect:edge-set")
+    else:
+        for c in keys:
+            if oc[c] != exp[c]:  # all equal, exchange invisible
+                R.fail("redirect:attributes", ctx() + f" column {c}", "redirect:attribute-changed")
+                return None
+        R.check(ref.ahu(pids) == ref.ahu(want_p, root=k), "redirect:edges", ctx, "redirect:edge-set")
+    return pids, oc
+
+
 def check_redirect(case, R):
     from swcgeom.core import redirect_tree
 
@@ -160,58 +216,7 @@ def check_redirect(case, R):
     keys = [k for k in src if k not in ("id", "pid")]
 
     def judge(what, out, base_p, base_cols, old_root, k, srt):
-        """out must be base (parent list base_p, columns base_cols) re-rooted at k."""
-        ctx = lambda: f"{what} p={base_p} new_root={k} sort={srt}: ids={out.id().tolist()} pids={out.pid().tolist()} types={out.type().tolist()}"  # noqa: E731
-        ids = [int(i) for i in out.id().tolist()]
-        pids = [int(i) for i in out.pid().tolist()]
-        if not R.check(len(ids) == n and ids == list(range(n)), "redirect:nodes", ctx, "redirect:node-count-or-ids"):
-            return None
-        if not R.check(set(out.keys()) == set(base_cols), "redirect:columns", ctx, "redirect:columns-lost"):
-            return None
-        want_p = ref.reroot(base_p, k)
-        exp = {c: list(base_cols[c]) for c in keys}
-        exp["type"][old_root], exp["type"][k] = exp["type"][k], exp["type"][old_root]
-        oc = cols_of(out)
-        roots = [i for i in range(n) if pids[i] == -1]
-        if not R.check(len(roots) == 1, "redirect:unique-root", ctx, "redirect:unique-root"):
-            return None
-        if not R.check(all(q == -1 or 0 <= q < n for q in pids) and not ref.has_cycle(pids), "redirect:malformed", ctx, "redirect:malformed"):
-            return None
-        if not srt:
-            # every node keeps its position
-            for c in keys:
-                if oc[c] != exp[c]:
-                    R.fail("redirect:attributes", ctx() + f" column {c}: {oc[c]} != {exp[c]}",
-                           "redirect:type-exchange" if c == "type" else "redirect:attribute-changed")
-                    return None
-            R.check(roots == [k], "redirect:requested-root", ctx, "redirect:requested-root")
-            R.check(pids == want_p, "redirect:edges", lambda: ctx() + f" want pids {want_p}", "redirect:edge-set")
-            return pids, oc
-        # sorted form
-        R.check(roots == [0] and all(pids[i] < i for i in range(1, n)), "redirect:not-sorted", ctx, "redirect:sort")
-        if tagged:
-            tag2orig = {base_cols["r"][i]: i for i in range(n)}
-            orig = [tag2orig.get(v) for v in oc["r"]]
-            if not R.check(None not in orig and sorted(orig) == list(range(n)), "redirect:node-multiset", ctx, "redirect:node-multiset"):
-                return None
-            for c in keys:
-                got = [oc[c][j] for j in range(n)]
-                want = [exp[c][orig[j]] for j in range(n)]
-                if got != want:
-                    R.fail("redirect:attributes", ctx() + f" column {c}: {got} != {want}",
-                           "redirect:type-exchange" if c == "type" else "redirect:attribute-changed")
-                    return None
-            R.check(orig[roots[0]] == k, "redirect:requested-root", ctx, "redirect:requested-root")
-            got_e = sorted(tuple(sorted((orig[i], orig[pids[i]]))) for i in range(n) if pids[i] != -1)
-            want_e = sorted(tuple(sorted(e)) for e in ref.edges(base_p))
-            R.check(got_e == want_e, "redirect:edges", lambda: ctx() + f" edges {got_e} != {want_e}", "redirect:edge-set")
-        else:
-            for c in keys:
-                if oc[c] != exp[c]:  # all equal, exchange invisible
-                    R.fail("redirect:attributes", ctx() + f" column {c}", "redirect:attribute-changed")
-                    return None
-            R.check(ref.ahu(pids) == ref.ahu(want_p, root=k), "redirect:edges", ctx, "redirect:edge-set")
-        return pids, oc
+        return judge_redirect(R, what, out, n, keys, tagged, base_p, base_cols, old_root, k, srt)
 
     for k in range(n):
         for srt in (True, False):
@@ -220,6 +225,8 @@ def check_redirect(case, R):
                 continue
             R.check(build.snapshot(t) == snap, "redirect:input-modified", f"p={p} k={k} sort={srt}", "redirect:input-modified")
             got = judge("redirect_tree", out, p, src, 0, k, srt)
+            why = build.independent(out, t)
+            R.check(why == "", "redirect:result-aliases-input", lambda: f"p={p} k={k} sort={srt}: {why}", "redirect:result-aliases-input")
             if got is not None:
                 R.outcome("r", tuple(got[0]))
             if got is None or srt or not two_step:
@@ -321,6 +328,9 @@ def check_cat(case, R):
                 what = f"cat_tree(A={pA}, B={'A itself' if self_pair else pB}, node1={node1}, node2={node2}, {mname}, geometry={variant}, extras={extras_mode})"
                 R.check(build.snapshot(tA) == snapA and build.snapshot(tB) == snapB, "cat:input-modified", what, "cat:input-modified")
                 judge_cat(R, what, A, B, colsA, colsB, node1, node2, translate, out, self_pair, variant)
+                for inp in ((tA,) if self_pair else (tA, tB)):
+                    why = build.independent(out, inp)
+                    R.check(why == "", "cat:result-aliases-input", lambda: f"{what}: {why}", "cat:result-aliases-input")
 
 
 def judge_cat(R, what, A, B, colsA, colsB, node1, node2, translate, out, self_pair, variant):
@@ -480,6 +490,94 @@ def check_path(case, R):
         R.outcome("rev", mlen, rc["type"] == exch)
 
 
+# ------------------------------------------------------------------ call histories
+
+
+class _Later:
+    """Recorder proxy for re-inspection: same oracle, klass marked as 'after later calls'."""
+
+    SFX = ":re-inspected-after-later-calls"
+
+    def __init__(self, R):
+        self.R = R
+
+    def check(self, cond, kind, detail="", klass=None, **kw):
+        return self.R.check(cond, kind, detail, (klass or kind) + self.SFX, **kw)
+
+    def fail(self, kind, detail="", klass=None, **kw):
+        return self.R.fail(kind, detail, (klass or kind) + self.SFX, **kw)
+
+    def outcome(self, *a):
+        pass
+
+    def __getattr__(self, name):
+        return getattr(self.R, name)
+
+
+def run_call(desc, R):
+    """Execute one redirect/cat call on FRESH inputs, judge it, return a re-judging closure (or None)."""
+    from swcgeom.core import cat_tree, redirect_tree
+
+    if desc[0] == "r":
+        _, p, k, srt = desc
+        p = list(p)
+        n = len(p)
+        t = mk(p, a_types(n), _small(n, R.seed % 4), a_r(n), {"e": 100.5})
+        src = cols_of(t)
+        keys = [c for c in src if c not in ("id", "pid")]
+        ok, out = R.impl("redirect_tree", redirect_tree, t, int(k), bool(srt))
+        if not ok:
+            return None
+        rejudge = lambda RR: judge_redirect(RR, "history:redirect_tree", out, n, keys, True, p, src, 0, int(k), bool(srt))  # noqa: E731
+    else:
+        _, pA, pB, node1, node2, translate, variant = desc
+        pA, pB = list(pA), list(pB)
+        xa, xb = geometry(variant, len(pA), len(pB), R.seed)
+        A = {"p": pA, "type": a_types(len(pA)), "r": a_r(len(pA)), "xyz": xa}
+        B = {"p": pB, "type": b_types(len(pB)), "r": b_r(len(pB)), "xyz": xb}
+        tA = mk(pA, A["type"], xa, A["r"], {"e": 100.5})
+        tB = mk(pB, B["type"], xb, B["r"], {"e": 200.5})
+        colsA, colsB = cols_of(tA), cols_of(tB)
+        ok, out = R.impl("cat_tree", lambda: cat_tree(tA, tB, int(node1), int(node2), translate=bool(translate)))
+        if not ok:
+            return None
+        what = f"history:cat_tree(A={pA}, B={pB}, node1={node1}, node2={node2}, translate={bool(translate)}, geometry={variant})"
+        rejudge = lambda RR: judge_cat(RR, what, A, B, colsA, colsB, int(node1), int(node2), bool(translate), out, False, variant)  # noqa: E731
+    rejudge(R)
+    return rejudge
+
+
+def check_calls(case, R):
+    """A sequence of calls on different fresh inputs: each result judged when returned AND after all later calls."""
+    seq = [tuple(d) for d in case]
+    R.state("calls", seq)
+    live = []
+    for d in seq:
+        rj = run_call(d, R)
+        if rj is not None:
+            live.append(rj)
+    later = _Later(R)
+    for rj in live[:-1]:
+        rj(later)
+    R.outcome(tuple(d[0] for d in seq), len(live))
+
+
+def call_alphabet(trees, variants):
+    calls = []
+    for p in trees:
+        for k in range(len(p)):
+            for srt in (True, False):
+                calls.append(("r", p, k, srt))
+    for pa in trees:
+        for pb in trees:
+            for n1 in range(len(pa)):
+                for n2 in range(len(pb)):
+                    for tr in (True, False):
+                        for v in variants:
+                            calls.append(("c", pa, pb, n1, n2, tr, v))
+    return calls
+
+
 # ------------------------------------------------------------------ spaces
 
 
@@ -530,13 +628,40 @@ def spaces(tier, seed):
     def gen_path():
         yield from lt_upto(1, 5 if quick else 6)
 
+    if quick:
+        pair_trees = list(lt_upto(1, 2)) + [(-1, 0, 0), (-1, 2, 0)]
+        pair_variants = ("gen",)
+    else:
+        pair_trees = list(lt_upto(1, 3))
+        pair_variants = ("gen", "big1000")
+    triple_trees = list(lt_upto(1, 2))
+    pair_alpha = call_alphabet(pair_trees, pair_variants)
+    triple_alpha = call_alphabet(triple_trees, ("gen",))
+
+    def gen_calls():
+        for a in pair_alpha:
+            for b in pair_alpha:
+                yield (a, b)
+        if not quick:
+            for a in triple_alpha:
+                for b in triple_alpha:
+                    for c in triple_alpha:
+                        yield (a, b, c)
+
     cat_bounds = {"A": f"LT(<={a_hi})", "B": f"LT(<={b_hi})", "junctions": "all (node1, node2)", "translate": [True, False, "no_move legacy (gen only)"],
                   "variants": [list(v) for v in variants], "bank": f"generic bank {seed % 4} (A) / {seed % 4 + 4} (B)"}
     if not quick:
         cat_bounds["extra"] = f"A in ST(<=4) x B in LT({b2_hi}) x 4 variants; A in LT(5) x B in LT(5) x (gen, lat)"
-    return [
+    out = [
         Space.of("redirect", gen_redirect, check_redirect, bounds={"LT_max_nodes": red_hi, "two_step_max_nodes": two_hi, "sort": [True, False]}),
         Space.of("cat", gen_cat, check_cat, bounds=cat_bounds),
         Space.of("cat-self", gen_self, check_cat, bounds={"trees": f"LT(<={4 if quick else 5})", "pair": "the same object twice"}),
         Space.of("path-transforms", gen_path, check_path, bounds={"LT_max_nodes": 5 if quick else 6, "objects": "every root-to-tip path and every branch"}),
+        Space.of("call-histories", gen_calls, check_calls,
+                 bounds={"pairs": f"every ordered pair of {len(pair_alpha)} calls (redirect: all roots x sort; cat: all junctions x translate x {list(pair_variants)}) on trees {[list(t) for t in pair_trees]}",
+                         "triples": "none" if quick else f"every ordered triple of {len(triple_alpha)} calls on trees {[list(t) for t in triple_trees]}",
+                         "inputs": "fresh objects for every call; every result re-judged after all later calls"}),
     ]
+    for sp in out:
+        sp.auto_retain = True  # results returned through R.impl are never edited without exact restoration (build.independent restores)
+    return out
